@@ -699,6 +699,77 @@ theorem C13_literal_roundtrip_escaped (k : Nat) (nm : Str) (a : Nat) (ty : TyD) 
   rw [determine_render_enc k _ d hdok henc]
   simp only [d, LineD.node, v, Lit.text, decode_encQ_dq s (fun ch hch => (hs ch hch).2.2), blockNode]
 
+/-- **Escaped apostrophes in single-quoted values**: the definition `name type = '…'` whose value writes every
+    apostrophe of the intended text `s` as backslash-apostrophe lexes to the node with raw value exactly `s`
+    (marks `$@00` put in by `encode`, closing quote found, marks taken out by `decode`). -/
+theorem C13_literal_roundtrip_escaped_sq (k : Nat) (nm : Str) (a : Nat) (ty : TyD) (dims : Option (List DimD)) (b c : Nat)
+    (s : Str) (unit cm : Option (Nat × Str))
+    (hn : NameOk nm) (hd : DimsOk dims) (hu : ∀ n x, unit = some (n, x) → UnitOk x)
+    (htail : NoEsc (renderTail unit cm)) (hs : ∀ ch ∈ s, ch ≠ '\\' ∧ ch ≠ '\n' ∧ ch ≠ '$') :
+    determine (List.replicate k ' ' ++ (definePrefix nm a ty dims b c ++
+        '\'' :: (escQ '\'' s ++ '\'' :: renderTail unit cm))) = .ok (blockNode k nm ty dims s unit) := by
+  let v : ValD := { lit := .sq (encQ '\'' enc0 s), unit := unit, cm := cm }
+  let d : LineD := .define nm a ty dims b c v
+  have e0 : enc0 = ['$', '@', '0', '0'] := by decide
+  have hvok : v.Ok := by
+    refine ⟨?_, hu⟩
+    show ∀ x ∈ encQ '\'' enc0 s, x ≠ '\''
+    apply encQ_chars '\'' enc0 (fun x => x ≠ '\'')
+    · rw [e0]; decide
+    · intro x _ hx; exact hx
+  have hdok : d.Ok := ⟨hn, hd, hvok⟩
+  have henc : encode (definePrefix nm a ty dims b c ++ '\'' :: (escQ '\'' s ++ '\'' :: renderTail unit cm)) = d.render := by
+    rw [encode_escaped_sq _ _ s (NoEsc_definePrefix nm a ty dims b c hn hd) htail
+      (fun ch hch => ⟨(hs ch hch).1, (hs ch hch).2.1⟩), define_render_prefix]
+    simp [ValD.render, Lit.render, v, List.append_assoc]
+  rw [determine_render_enc k _ d hdok henc]
+  simp only [d, LineD.node, v, Lit.text, decode_encQ_sq s (fun ch hch => (hs ch hch).2.2), blockNode]
+
+/-- **Escaped quotes in modification lines**: `name = "…"` / `name = '…'` with every quote character of the
+    intended text written as backslash-quote lexes to the modification node with raw value exactly that text. -/
+theorem C13_modify_roundtrip_escaped (k : Nat) (nm : Str) (a b : Nat) (s : Str) (unit cm : Option (Nat × Str))
+    (hn : NameOk nm) (hu : ∀ n x, unit = some (n, x) → UnitOk x)
+    (htail : NoEsc (renderTail unit cm)) (hs : ∀ ch ∈ s, ch ≠ '\\' ∧ ch ≠ '\n' ∧ ch ≠ '$') :
+    determine (List.replicate k ' ' ++ (modifyPrefix nm a b ++ '"' :: (escQ '"' s ++ '"' :: renderTail unit cm))) =
+      .ok (modNode k nm s unit) ∧
+    determine (List.replicate k ' ' ++ (modifyPrefix nm a b ++ '\'' :: (escQ '\'' s ++ '\'' :: renderTail unit cm))) =
+      .ok (modNode k nm s unit) := by
+  have e0 : enc0 = ['$', '@', '0', '0'] := by decide
+  have e1 : enc1 = ['$', '@', '0', '1'] := by decide
+  have hsb : ∀ ch ∈ s, ch ≠ '\\' ∧ ch ≠ '\n' := fun ch hch => ⟨(hs ch hch).1, (hs ch hch).2.1⟩
+  have hsd : ∀ ch ∈ s, ch ≠ '$' := fun ch hch => (hs ch hch).2.2
+  constructor
+  · let v : ValD := { lit := .dq (encQ '"' enc1 s), unit := unit, cm := cm }
+    let d : LineD := .modify nm a b v
+    have hvok : v.Ok := by
+      refine ⟨?_, hu⟩
+      show ∀ x ∈ encQ '"' enc1 s, x ≠ '"'
+      apply encQ_chars '"' enc1 (fun x => x ≠ '"')
+      · rw [e1]; decide
+      · intro x _ hx; exact hx
+    have hdok : d.Ok := ⟨hn, hvok⟩
+    have henc : encode (modifyPrefix nm a b ++ '"' :: (escQ '"' s ++ '"' :: renderTail unit cm)) = d.render := by
+      rw [encode_escaped_dq _ _ s (NoEsc_modifyPrefix nm a b hn) htail hsb, modify_render_prefix]
+      simp [ValD.render, Lit.render, v, List.append_assoc]
+    rw [determine_render_enc k _ d hdok henc]
+    simp only [d, LineD.node, v, Lit.text, decode_encQ_dq s hsd, modNode]
+  · let v : ValD := { lit := .sq (encQ '\'' enc0 s), unit := unit, cm := cm }
+    let d : LineD := .modify nm a b v
+    have hvok : v.Ok := by
+      refine ⟨?_, hu⟩
+      show ∀ x ∈ encQ '\'' enc0 s, x ≠ '\''
+      apply encQ_chars '\'' enc0 (fun x => x ≠ '\'')
+      · rw [e0]; decide
+      · intro x _ hx; exact hx
+    have hdok : d.Ok := ⟨hn, hvok⟩
+    have henc : encode (modifyPrefix nm a b ++ '\'' :: (escQ '\'' s ++ '\'' :: renderTail unit cm)) = d.render := by
+      rw [encode_escaped_sq _ _ s (NoEsc_modifyPrefix nm a b hn) htail hsb, modify_render_prefix]
+      simp [ValD.render, Lit.render, v, List.append_assoc]
+    rw [determine_render_enc k _ d hdok henc]
+    simp only [d, LineD.node, v, Lit.text, decode_encQ_sq s hsd, modNode]
+
+example : escQ '\'' "it's".toList = "it\\'s".toList ∧ modifyPrefix "a.b".toList 0 1 = "a.b = ".toList := by decide
+
 /-- the same marks for single quotes: `decode` gives the text with its apostrophes back -/
 theorem C13_escape_marks_inverse (s : Str) (h : ∀ c ∈ s, c ≠ '$') :
     decode (encQ '"' enc1 s) = s ∧ decode (encQ '\'' enc0 s) = s :=
